@@ -93,6 +93,10 @@ def body_cons(ch, ctx):
         bad = []
     ctx.check(not bad, "iterator-dialect-differs", dict(sig, keys=",".join(bad)), file=texts[:3], checklines=cl,
               got={k: got.get(k) for k in bad}, expected={k: exp.get(k) for k in bad}, orders=orders)
+    # the same lines handed over as Feature objects must be judged alike
+    it2 = gffutils.DataIterator([feature_from_line(t) for t in texts], checklines=cl)
+    ctx.check(dict(it2.dialect) == got, "feature-list-dialect-differs-from-path", sig, checklines=cl, file=texts[:3],
+              path=got, features=dict(it2.dialect))
     for i, ((cols, items, extras), text) in enumerate(zip(lines, texts)):
         per = dict(helpers.infer_dialect(text.split("\t")[8]))
         per["order"] = G.dedup(per.get("order", []))
